@@ -147,9 +147,9 @@ def atomPieces (k : AtomKind) (toks : List Tok) : List Piece :=
   | .str, [.sqs s] => [⟨false, .sqs s, some ([39] ++ SqlVerif.Escape.escapeQ 39 s ++ [39])⟩]
   | .dstr, [.dqs s] => [⟨false, .dqs s, some ([34] ++ SqlVerif.Escape.escapeQ 34 s ++ [34])⟩]
   | .ph, [.placeholder s] => [⟨false, .placeholder s, some s⟩]
-  -- `tok.to_string() + &ident.value`: the quotes of a quoted word are dropped
+  -- `tok.to_string() + &ident.to_string()` (fix 736fcf6): the name is kept as written, quotes included
   | .ph2, [t, .word v q kw] =>
-    [⟨false, t, t.display⟩, ⟨false, .word v none (if q.isSome then kwLookup v else kw), some v⟩]
+    [⟨false, t, t.display⟩, ⟨false, .word v q kw, identText v q⟩]
   | .ph2, [t, .number v l] => [⟨false, t, t.display⟩, ⟨false, .number v l, some v⟩]
   | .boolTrue, _ => [⟨false, .word (str "true") none (some KW.TRUE), some (str "true")⟩]
   | .boolFalse, _ => [⟨false, .word (str "false") none (some KW.FALSE), some (str "false")⟩]
